@@ -493,9 +493,10 @@ fn decode_value(v: &RawVec, num: Num, ty: Ty, is_info: bool) -> Result<Option<Va
         }
         Ty::Character | Ty::String => {
             let Some(s) = str_payload(v)? else { return Ok(None) };
-            let _ = is_info;
             if num.is_scalar() {
-                if s == "." {
+                // per-sample strings use `.` for a missing value (that is how VCF text is carried
+                // over); a typed INFO string is missing when it is empty
+                if s == "." && !is_info {
                     return Ok(None);
                 }
                 if ty == Ty::Character {
